@@ -18,6 +18,49 @@ PROP = "C11"
 LETTERS = "abcdefghijklmnopqrstuvwxyzABCDEFGHIJKLMNOPQRSTUVWXYZ"
 
 
+# advisory source pins (DESIGN.md 4.1): sha1 of the docstring-free AST of every modelled function at the
+# time the model was written.  A changed pin is NOT a failure: it is recorded in the evidence and
+# triples the generated-case budget of the quick tier.
+PINS = {
+    "_sanitize_equation": "4d6cc1af94d7",
+    "_parse_einsum_single": "938fceb352f6",
+    "_parse_eq_to_pure_multiplication": "c3ff0297d974",
+    "_parse_eq_to_batch_matmul": "41aa72e4a58e",
+    "_einsum_single": "d5a81879f3b3",
+    "_do_contraction_via_bmm": "a2cce8422355",
+    "einsum": "998885176343",
+    "_parse_tensordot_axes_to_matmul": "196002c58cb3",
+    "tensordot": "0df451f461d9",
+}
+
+
+def changed_pins():
+    import ast
+    import hashlib
+    import inspect
+    import sys
+    import textwrap
+    from cotengra.contract import einsum  # noqa: F401  (forces the import of the module)
+    mod = sys.modules["cotengra.contract"]
+    changed = []
+    for name, want in PINS.items():
+        try:
+            f = getattr(mod, name)
+            f = getattr(f, "__wrapped__", f)
+            tree = ast.parse(textwrap.dedent(inspect.getsource(f)))
+            for node in ast.walk(tree):
+                if isinstance(node, ast.FunctionDef) and node.body and isinstance(node.body[0], ast.Expr) \
+                        and isinstance(getattr(node.body[0], "value", None), ast.Constant) \
+                        and isinstance(node.body[0].value.value, str):
+                    node.body = node.body[1:]
+            got = hashlib.sha1(ast.dump(tree).encode()).hexdigest()[:12]
+        except Exception as e:  # noqa
+            got = "unreadable: %r" % (e,)
+        if got != want:
+            changed.append(name)
+    return changed
+
+
 # ---------------------------------------------------------------------------
 # encoding of strings / plans / tensors in the model's layout
 def enc(s):
@@ -261,6 +304,12 @@ def run(ctx):
 
     rng = ctx.rng
     IMPORTS = ["Base", "BMM", "ArrayOps"]
+    pins = changed_pins()
+    boost = 3 if (pins and ctx.quick) else 1
+    ctx.coverage["source_pins_changed"] = pins
+    if pins:
+        ctx.notes.append("modelled functions whose source changed since the model was written: %s "
+                         "(advisory; generated-case budget x%d)" % (", ".join(pins), boost))
 
     # =======================================================================
     # oracle helpers (implementation vs numpy, both _einsum_single modes)
@@ -404,7 +453,7 @@ def run(ctx):
         labels = sorted(set(ta + tb))
         d = rand_sizes(rng, labels)
         add_two("%s,%s->%s" % (ta, tb, out), [d[c] for c in ta], [d[c] for c in tb], "small")
-    nrand = ctx.n(2400, 20000)
+    nrand = ctx.n(2400, 20000) * boost
     for i in range(nrand):
         big = i % 3 == 0
         if i % 2:
@@ -487,7 +536,7 @@ def run(ctx):
         if c.get("kind") == "einsum1":
             add_single(c["eq"], c["shapes"][0], "corpus:" + c["eq"])
             ctx.count("corpus")
-    for i in range(ctx.n(700, 7000)):
+    for i in range(ctx.n(700, 7000) * boost):
         nsym = rng.randint(1, 5 if i % 3 == 0 else 3)
         syms = LETTERS[:nsym]
         ta = rand_term(rng, syms, 5 if i % 4 == 0 else 4)
@@ -585,6 +634,7 @@ def run(ctx):
                 for xa in itertools.permutations(range(ra), k):
                     for xb in itertools.permutations(range(rb), k):
                         specs.append((ra, rb, (list(xa), list(xb))))
+    specs = specs * ctx.n(2, 8)          # several shape draws per specification
     rng.shuffle(specs)
     for i, (ra, rb, axes) in enumerate(specs[: ctx.n(350, len(specs))]):
         # shapes consistent with the axes
@@ -636,6 +686,24 @@ def run(ctx):
     for eq in ("ab,bc", "ab, bc -> ac", "ab,bc->ac "):
         judge_einsum(eq, [a23, b34], {"probe": "einsum2_unsanitized_equation"},
                      known=lambda got: "einsum2_unsanitized_equation" if got[0] == "raises" and got[1] == "ValueError" else None)
+
+    # the same three findings from the corpus (kept as regression cases once they are fixed)
+    for c in corpus:
+        kind, key = c.get("kind"), c.get("known")
+        if kind == "tensordot":
+            x, y = rand_array(rng, c["shapes"][0]), rand_array(rng, c["shapes"][1])
+            axes = c["axes"] if isinstance(c["axes"], int) else (list(c["axes"][0]), list(c["axes"][1]))
+            if key == "tensordot_int_axes":
+                kf = lambda got, key=key: key if got[0] == "raises" and got[1] == "TypeError" else None
+            else:
+                kf = lambda got, key=key, axes=axes: key if (not isinstance(axes, int) and axes[1] and min(axes[1]) < 0) else None
+            judge_tensordot(x, y, axes, {"corpus": c}, known=kf)
+            ctx.count("corpus")
+        elif kind == "einsum2_raw":
+            x, y = rand_array(rng, c["shapes"][0]), rand_array(rng, c["shapes"][1])
+            judge_einsum(c["eq"], [x, y], {"corpus": c},
+                         known=lambda got, key=key: key if got[0] == "raises" and got[1] == "ValueError" else None)
+            ctx.count("corpus")
 
     # =======================================================================
     # 5. run the model on everything collected
